@@ -15,6 +15,7 @@ var commands = map[string]func([]string){
 	"serve":   cmdServe,
 	"life":    cmdLife,
 	"nf":      cmdNF,
+	"c07conc": cmdC07Conc,
 	"c07":     cmdC07,
 	"cfgs":    cmdCfgs,
 	"c14gen":  cmdC14Gen,
